@@ -1,7 +1,12 @@
 package props
 
 import (
+	"encoding/base64"
+	"encoding/binary"
+	"regexp"
+
 	"encoding/json"
+	"filippo.io/age"
 	"fmt"
 	"io"
 	"net"
@@ -368,6 +373,46 @@ func c19Binary(e *core.Env) error {
 					}
 				}
 			}
+			if !disable && enforceLB {
+				// key harvest: whatever the OPEN endpoints say (status line, headers, body — also when rate limited or
+				// failing) is searched for either half of an age key pair; a half found is used to mint a cookie,
+				// and the minted cookie is presented to a protected route
+				var said strings.Builder
+				for _, path := range []string{"/", "/diag", "/diag", "/metrics", "/login", "/no-such-page", "/debug/pprof/", "/debug/pprof/cmdline"} {
+					for _, method := range []string{"GET", "POST", "HEAD"} {
+						req, _ := http.NewRequest(method, fmt.Sprintf("http://127.0.0.1:%d%s", p.port, path), nil)
+						resp, err := cl.Do(req)
+						if err != nil {
+							continue
+						}
+						resp.Header.Write(&said)
+						b, _ := io.ReadAll(io.LimitReader(resp.Body, 4<<20))
+						resp.Body.Close()
+						said.Write(b)
+						said.WriteString("\n")
+					}
+				}
+				impl := "no key material in any open answer"
+				var minted []string
+				for _, m := range regexp.MustCompile(`age1[0-9a-z]{40,}|AGE-SECRET-KEY-1[0-9A-Z]{40,}`).FindAllString(said.String(), -1) {
+					if tok := mintCookie(m); tok != "" {
+						minted = append(minted, tok)
+						impl = "an open endpoint disclosed " + m[:12] + "…"
+					}
+				}
+				for _, tok := range minted {
+					req, _ := http.NewRequest("GET", fmt.Sprintf("http://127.0.0.1:%d/add-source", p.port), nil)
+					req.Header.Set("Cookie", "session="+tok)
+					if resp, err := cl.Do(req); err == nil {
+						if !(resp.StatusCode == http.StatusSeeOther && resp.Header.Get("Location") == "/login") {
+							impl = fmt.Sprintf("a cookie minted from key material an open endpoint disclosed was accepted: GET /add-source answered %d to a client that never presented the password", resp.StatusCode)
+						}
+						resp.Body.Close()
+					}
+				}
+				e.Add(core.Case{Impl: impl, Spec: "no key material in any open answer", Key: "authn-bin-key-harvest", Nontrivial: true,
+					Tags: []string{"binary", "key-harvest"}, Detail: map[string]any{"bytes_searched": said.Len()}})
+			}
 			for _, peer := range peers {
 				lb := net.ParseIP(peer).IsLoopback()
 				reach := false
@@ -412,4 +457,34 @@ func c19Binary(e *core.Env) error {
 		}
 	}
 	return nil
+}
+
+// mintCookie: a session cookie value encrypted to the given age key half ("" when it is not one)
+func mintCookie(key string) string {
+	var rcp age.Recipient
+	if strings.HasPrefix(key, "AGE-SECRET-KEY-1") {
+		id, err := age.ParseX25519Identity(key)
+		if err != nil {
+			return ""
+		}
+		rcp = id.Recipient()
+	} else {
+		r, err := age.ParseX25519Recipient(key)
+		if err != nil {
+			return ""
+		}
+		rcp = r
+	}
+	out := &strings.Builder{}
+	be := base64.NewEncoder(base64.URLEncoding, out)
+	enc, err := age.Encrypt(be, rcp)
+	if err != nil {
+		return ""
+	}
+	binary.Write(enc, binary.BigEndian, time.Now().Unix()+86400)
+	enc.Write([]byte("{}\n"))
+	if enc.Close() != nil || be.Close() != nil {
+		return ""
+	}
+	return out.String()
 }
